@@ -449,6 +449,10 @@ bool SPxLPBase<Rational>::readLPF(
 
       while(!p_input.getline(buf + buf_pos, buf_size - buf_pos))
       {
+         // a read error (damaged compressed file) is neither a long line nor the end of the file
+         if(p_input.bad())
+            goto syntax_error;
+
          p_input.clear();
 
          if(strlen(buf) == (size_t) buf_size - 1)
